@@ -30,6 +30,8 @@ def run(ctx):
     keys_seen = set()
     rend_seen = set()
     per_samples = 3 if quick else 12
+    PAD = ''.join('neutral line of log text number %05d with nothing to hide\n' % i for i in range(80))
+    long_msgs = [0]
     for rec in recs:
         msg, masked = rec['msg'], rec['masked']
         fields = [i for i, sg in enumerate(msg) if sg['t'] == 'field']
@@ -52,6 +54,10 @@ def run(ctx):
                 text = gm.render(msg, secrets, mask, spelled)
                 want = gm.render(masked, secrets, mask, spelled)
                 calls += 1
+                if calls % 23 == 0:
+                    # the same message in the middle of a long one (a log of some 9 kB): the answer is the same there
+                    text, want = PAD + text + '\n' + PAD, PAD + want + '\n' + PAD
+                    long_msgs[0] += 1
                 try:
                     got = strutils.mask_password(text, mask)
                 except Exception as e:
@@ -83,7 +89,7 @@ def run(ctx):
     ctx.cov['distinct_nontrivial'] += len(recs)
     if len(keys_seen) != 35 or len(rend_seen) != 18:
         raise MachineryError('vacuity: %d keys, %d renderings exercised' % (len(keys_seen), len(rend_seen)))
-    ctx.stage('mask-replay', messages=len(recs), calls=calls, keys=len(keys_seen), renderings=len(rend_seen))
+    ctx.stage('mask-replay', messages=len(recs), calls=calls, inside_9kB_messages=long_msgs[0], keys=len(keys_seen), renderings=len(rend_seen))
     ctx.sample({'message': recs[0]})
     # the repository's own literal payloads keep the grammar honest: every payload the
     # upstream tests consider supported must be explained by a rendering of the spec
@@ -127,6 +133,21 @@ def run(ctx):
                     ctx.violation({'kind': 'non-str-message', 'shape': shape, 'leak': secret in str(got)},
                                   {'message': repr(obj), 'expected': want, 'observed': got},
                                   'mask_password(%r) -> %r, specification %r' % (obj, got, want))
+    class EmptyLooking(list):
+        """an object that is false in a boolean context and whose text carries a secret"""
+        def __str__(self):
+            return 'retrying with password=hunter2'
+    for obj, want in ((None, 'None'), (0, '0'), (b'', "b''"), ([], '[]'), ({}, '{}'), (False, 'False'), ('', ''),
+                      (EmptyLooking(), 'retrying with password=***')):
+        n3 += 1
+        try:
+            got = strutils.mask_password(obj)
+        except Exception as e:
+            got = 'EXC:%s' % type(e).__name__
+        if got != want or type(got) is not str:
+            ctx.violation({'kind': 'non-str-message', 'shape': 'falsy', 'leak': False},
+                          {'message': repr(obj), 'expected': want, 'observed': repr(got)},
+                          'mask_password(%r) -> %r, specification %r (a str)' % (obj, got, want))
     ctx.cov['evaluations'] += n3
     ctx.stage('non-str-messages', messages=n3)
     _rec.__exit__()
